@@ -100,10 +100,11 @@ const (
 	opWaitExpire
 	opSweepChase
 	opWaitUpdate
+	opWaitDLUpdate
 	nOps
 )
 
-var opNames = [...]string{"createTopic", "deleteTopic", "createSub", "deleteSub", "updateSub", "publish", "pull", "ack", "modack", "seekTime", "snapshot", "seekSnap", "advance", "job", "dlSweep", "expirySweep", "setDelay", "fault", "restart", "deleteSnap", "pullAck", "chase", "nack", "waitCancel", "snapCombo", "waitDelete", "waitExpire", "sweepChase", "waitUpdate"}
+var opNames = [...]string{"createTopic", "deleteTopic", "createSub", "deleteSub", "updateSub", "publish", "pull", "ack", "modack", "seekTime", "snapshot", "seekSnap", "advance", "job", "dlSweep", "expirySweep", "setDelay", "fault", "restart", "deleteSnap", "pullAck", "chase", "nack", "waitCancel", "snapCombo", "waitDelete", "waitExpire", "sweepChase", "waitUpdate", "waitDLUpdate"}
 
 func baseWeights() []int {
 	w := make([]int, nOps)
@@ -177,6 +178,7 @@ func (r *Run) configure() {
 		}
 		w[opNack] = 8
 		w[opSweepChase] = 4
+		w[opWaitDLUpdate] = 4
 		w[opDLSweep] = 6
 		w[opAdvance] *= 2
 		w[opPull] *= 2
@@ -502,6 +504,8 @@ func (r *Run) step() *Violation {
 		return r.doSweepChase()
 	case opWaitUpdate:
 		return r.doWaitUpdate(t.Intn(r.nSubs))
+	case opWaitDLUpdate:
+		return r.doWaitDLUpdate(t.Intn(r.nSubs))
 	case opFault:
 		if r.Variant == "order" && t.Bool(50) {
 			// a storage fault inside a publish (the predecessor lookup is one of its statements)
@@ -1996,6 +2000,181 @@ func (r *Run) doWaitUpdate(i int) *Violation {
 	time.Sleep(oldTTL + 2*time.Minute)
 	r.Sim.Settle()
 	return r.doExpirySweep(1000)
+}
+
+// doWaitDLUpdate (C06): the dead-letter policy of a subscription is changed while a pull is
+// parked on it, waiting for the lease of a delivery that was handed out before. When the lease
+// runs out the parked pull must treat the delivery by the policy in force THEN: with the limit
+// raised or the policy removed it is delivered again, with the limit lowered to the attempts
+// already made (or a policy attached) it is retired and forwarded, not delivered. The parked
+// pull is watched in slices of virtual time (see doWaitExpire) so that its response is known to
+// have been computed after the update; a plain pull afterwards settles what an empty response
+// leaves open.
+func (r *Run) doWaitDLUpdate(i int) *Violation {
+	t := r.T
+	name := subName(i)
+	ms := r.M.LiveSub(name)
+	if r.pendingFault != "" || ms == nil || ms.Cfg.Ordered || (ms.Cfg.fullDL() && !ms.Cfg.strictDL()) {
+		return nil
+	}
+	pick := func() *ED {
+		r.nudge(5 * time.Millisecond)
+		now := time.Now()
+		var target *ED
+		for _, e := range ms.EDs {
+			if e.State == stGone || !e.mayAlive(now) {
+				continue
+			}
+			if e.Fuzzy || e.DLMaybe {
+				return nil // something the model cannot place: no scenario
+			}
+			if e.State == stOut && (target == nil || e.LeaseLo.Before(target.LeaseLo)) {
+				target = e
+			}
+		}
+		if target == nil || target.Seen < 1 || target.SeenUnc != 0 || r.M.hasCopies(target) ||
+			target.LeaseLo.Before(now.Add(1500*time.Millisecond)) || target.LeaseHi.After(now.Add(45*time.Second)) ||
+			!target.mustAlive(target.LeaseHi.Add(5*time.Minute)) {
+			return nil
+		}
+		return target
+	}
+	target := pick()
+	if target == nil {
+		// hand out whatever is deliverable now, so that there is a lease to wait for
+		if v := r.pullSub(ms, false); v != nil {
+			return v
+		}
+		if ms = r.M.LiveSub(name); ms == nil || (ms.Cfg.fullDL() && !ms.Cfg.strictDL()) {
+			return nil
+		}
+		if target = pick(); target == nil {
+			return nil
+		}
+	}
+	cfg := ms.Cfg
+	req := &pubsubpb.Subscription{Name: name}
+	what := ""
+	if cfg.strictDL() {
+		switch t.Intn(3) {
+		case 0:
+			cfg.MaxAttempts = int32(target.Seen + 1 + t.Intn(3))
+			what = "limit raised"
+		case 1:
+			cfg.MaxAttempts = int32(target.Seen)
+			what = "limit lowered"
+		default:
+			cfg.DLTopic, cfg.MaxAttempts = nil, 0
+			what = "policy removed"
+		}
+		if cfg.DLTopic != nil {
+			if cfg.MaxAttempts == ms.Cfg.MaxAttempts {
+				return nil
+			}
+			req.DeadLetterPolicy = &pubsubpb.DeadLetterPolicy{DeadLetterTopic: cfg.DLTopic.Name, MaxDeliveryAttempts: cfg.MaxAttempts}
+		}
+	} else {
+		dt := r.M.LiveTopic(topicName(r.nTopics - 1))
+		if dt == nil || (r.noCycle && !r.dlAllowed(name, ms.Topic.Name, dt)) {
+			return nil
+		}
+		cfg.DLTopic, cfg.MaxAttempts = dt, int32(target.Seen+t.Intn(2))
+		what = "policy attached"
+		req.DeadLetterPolicy = &pubsubpb.DeadLetterPolicy{DeadLetterTopic: dt.Name, MaxDeliveryAttempts: cfg.MaxAttempts}
+	}
+	ctx, cancel := context.WithCancel(context.Background())
+	defer cancel()
+	ctx, mark := WithBeginMark(ctx)
+	var err error
+	var resp proto.Message
+	done := make(chan struct{})
+	t0 := time.Now()
+	go func() {
+		defer close(done)
+		resp, err = r.W.Call(ctx, "Pull", &pubsubpb.PullRequest{Subscription: name, MaxMessages: 10})
+	}()
+	r.Sim.Settle()
+	finished := func() bool {
+		select {
+		case <-done:
+			return true
+		default:
+			return false
+		}
+	}
+	lastParked := t0
+	updated := false
+	if !finished() {
+		_, res := r.do("UpdateSubscription", &pubsubpb.UpdateSubscriptionRequest{Subscription: req, UpdateMask: &fieldmaskpb.FieldMask{Paths: []string{"dead_letter_policy"}}})
+		r.ev("UpdateSubscription %s dead_letter_policy (%s, now max %d) while a pull waits for the lease of %v -> %v", name, what, cfg.MaxAttempts, target, code(res.err))
+		r.cev("UpdateSubscription %s dlp %v", name, code(res.err))
+		if res.err != nil {
+			cancel()
+			<-done
+			r.Sim.Settle()
+			return r.expectCode("C17", "UpdateSubscription "+name, res, codes.OK)
+		}
+		ms.Cfg = cfg
+		r.M.ConfigChanged(ms)
+		updated = true
+		r.Sim.Settle()
+		lastParked = time.Now()
+	}
+	for k := 0; k < 150 && !finished(); k++ {
+		lastParked = time.Now()
+		time.Sleep(500 * time.Millisecond)
+		r.Sim.Settle()
+	}
+	if !finished() {
+		return viol("C16", "wedged_pull", "a waiting Pull on %s did not end within 75 s (its own time-out is 59 s)", name)
+	}
+	<-done
+	r.Sim.Settle()
+	t1 := time.Now()
+	if p, ok := isPanic(err); ok {
+		return viol("C16", "panic:Pull", "%v", p.Val)
+	}
+	if err != nil {
+		r.ev("Pull %s (waiting, dead-letter policy changed meanwhile) after %v -> %v", name, t1.Sub(t0), code(err))
+		r.cev("PullDLP %s %v", name, code(err))
+		return viol("C12", "code:Pull "+name, "a waiting pull on a live subscription failed: %v", err)
+	}
+	recv := toRecv(resp.(*pubsubpb.PullResponse).ReceivedMessages)
+	var desc []string
+	for _, x := range recv {
+		seq := -1
+		if m := r.M.Msgs[x.MsgID]; m != nil {
+			seq = m.Seq
+		}
+		desc = append(desc, fmt.Sprintf("m%d#%d", seq, x.Attempt))
+		r.ackPool = append(r.ackPool, x.AckID)
+	}
+	sort.Strings(desc)
+	r.ev("Pull %s (waiting, %s meanwhile: %v) returned [%s] after %v (last seen parked at +%v, last transaction begun at +%v)", name, what, updated, strings.Join(desc, " "), t1.Sub(t0), lastParked.Sub(t0), mark.Last.Sub(t0))
+	r.cev("PullDLP %s [%s]", name, strings.Join(desc, " "))
+	if ms = r.M.LiveSub(name); ms == nil {
+		return nil
+	}
+	from := t0
+	if updated && len(recv) > 0 {
+		if mark.N > 0 && mark.Last.After(lastParked) {
+			lastParked = mark.Last
+		}
+		from = lastParked
+	}
+	if v := r.M.Pull(ms, 10, recv, from, t1); v != nil {
+		return v
+	}
+	if updated {
+		r.M.probe("waiting_pull_dl_policy_changed")
+		r.stat("waitdl_" + strings.ReplaceAll(what, " ", "_"))
+	}
+	// past the end of the lease in any case; a plain pull settles what the waiting one left open
+	if d := time.Until(target.LeaseHi.Add(11 * time.Millisecond)); d > 0 && target.State == stOut {
+		time.Sleep(d)
+		r.Sim.Settle()
+	}
+	return r.pullSub(ms, false)
 }
 
 // doSweepChase brings one delivery of a dead-lettering subscription to the state only the
